@@ -176,7 +176,7 @@ theorem tryFindFwd_transfer (A : Aut σ α) (B : Aut τ α) (pre : Option (Prefi
   unfold tryFindFwd
   rw [hk]
   split
-  · rfl
+  · rcases h.cases with ⟨hA, hB⟩ | ⟨a, b, hA, hB, _⟩ <;> rw [hA, hB]
   · simp only
     split
     · rename_i ha
@@ -292,7 +292,9 @@ theorem tryFindOverlappingFwd_transfer (A : Aut σ α) (B : Aut τ α) (pre : Op
   split
   · simp only [ExRel]
   · split
-    · exact hxy'
+    · rcases h.cases with ⟨hA, hB⟩ | ⟨a, b, hA, hB, _⟩ <;> rw [hA, hB]
+      · simp only [ExRel]
+      · exact hxy'
     · split
       · exact ovlImp_transfer A B _ i hl h _ _ hxy'
       · exact ovlImp_transfer A B _ i hl h _ _ hxy'
